@@ -44,13 +44,13 @@ What is proved here, for ALL graphs, weights and predicates:
   variants out for an arbitrary compatibility relation (`C13_vf2_matching_*`).
 
   Wave 6 covers the rest of the public surface of isomorphism.rs (`docs/C13_api.md`): the iterator's
-  `size_hint` is mirrored (`sizeHintModel`: the literal factorial table, the out-of-bounds index for a 21-node
-  pattern) and judged against the number of embeddings still to come (`C13_judgeHint_sound`,
-  `C13_judgeHintBig_sound`, `C13_embeddings_le_falling`); the statement "the model's size_hint brackets the number
-  of embeddings" is FALSE (`C13_size_hint_statement_false_witness`: open finding D34) and is proved in the repaired
-  forms `C13_size_hint_partial` (pattern and target of the same size) / `C13_size_hint_repaired` (upper bound
-  `n1!/(n1-n0)!`); a prefix of the iterator's output on a pair too big to enumerate is judged by
-  `judgePrefix` (`C13_judgePrefix_sound`).
+  `size_hint` is mirrored (`sizeHintModel`: the literal factorial table, indexed by the TARGET's node count —
+  finding D34, repaired in the code by a69e23d) and judged against the number of embeddings still to come
+  (`C13_judgeHint_sound`, `C13_judgeHintBig_sound`, `C13_embeddings_le_falling`); the statement "the model's
+  size_hint brackets the number of embeddings still to come, at every point of the iteration" — FALSE for the code
+  before the repair — is now proved (`C13_size_hint`, `C13_size_hint_total`; `C13_D34_witness_repaired`: the old
+  counterexample, and no panic for 21 nodes; `C13_size_hint_tighter`: `n1!/(n1-n0)!` would do too); a prefix of the
+  iterator's output on a pair too big to enumerate is judged by `judgePrefix` (`C13_judgePrefix_sound`).
 
 VF2 itself (petgraph's search) is tied to this reference per run: `./check C13` compares the implementation's
 answers with the oracle (spec level) and with the mirror model (exactly, including the yield order).
@@ -1188,14 +1188,17 @@ theorem C13_embeddings_le_falling (P : Problem) :
     (subIsoAll P).length ≤ falling P.g1.nodes.length P.g0.nodes.length :=
   subIsoAll_length_le P
 
-/-- the mirror of `size_hint`: `(0, Some(n0!))` up to 20 nodes (the literal table is the factorials), a panic
-(index out of bounds) for exactly 21 nodes, `(0, None)` from 22 nodes on -/
+/-- the mirror of `size_hint` (`n` = node count of the TARGET; code as repaired by a69e23d): `(0, Some(n!))` up to
+20 nodes (the literal table is the factorials), `(0, None)` from 21 nodes on, never a panic -/
 theorem C13_size_hint_model (n : Nat) :
     hintTable = (List.range 21).map fact ∧
     (n ≤ 20 → sizeHintModel n = some (0, some (fact n))) ∧
-    (n = 21 → sizeHintModel n = none) ∧
-    (22 ≤ n → sizeHintModel n = some (0, none)) :=
-  ⟨hintTable_eq, sizeHintModel_small, fun h => h ▸ sizeHintModel_21, sizeHintModel_large⟩
+    (21 ≤ n → sizeHintModel n = some (0, none)) ∧
+    (sizeHintModel n).isSome = true :=
+  ⟨hintTable_eq, sizeHintModel_small, sizeHintModel_large, sizeHintModel_isSome n⟩
+
+/-- the number of injections of `n0` into `n1` nodes is at most `n1!` -/
+theorem C13_falling_le_fact (n1 n0 : Nat) : falling n1 n0 ≤ fact n1 := falling_le_fact n1 n0
 
 /-- SOUNDNESS of the judge of `size_hint`: if `ys` are the `k` vectors yielded so far and `rest` those still to
 come, and together they are the embeddings, each once (what the property demands of the iterator), then an
@@ -1217,43 +1220,50 @@ theorem C13_judgeHintBig_sound (P : Problem) (lo : Nat) (hi : Option Nat)
     judgeHint P k lo hi = true :=
   judgeHintBig_sound P lo hi h k
 
-/-- the statement one would like: what `size_hint` returns brackets the number of embeddings -/
+/-- the statement about `size_hint`: what it returns brackets the number of embeddings still to come, at every
+point `k` of the iteration (FALSE for the code before a69e23d, whose `n` was the pattern's node count: D34) -/
 def C13_size_hint_statement : Prop :=
-  ∀ P : Problem, problemOkB P = true → ∀ lo hi,
-    sizeHintModel P.g0.nodes.length = some (lo, hi) → judgeHint P 0 lo hi = true
+  ∀ P : Problem, ∀ lo hi,
+    sizeHintModel P.g1.nodes.length = some (lo, hi) → ∀ k, judgeHint P k lo hi = true
 
-/-- a one-node pattern and two isolated target nodes: two embeddings, `size_hint = (0, Some(1))` -/
+/-- … and it HOLDS for the repaired code, for every pair of graphs (no hypothesis on `P`): there are at most
+`n1!/(n1-n0)! ≤ n1!` embeddings, and from 21 target nodes on the upper bound is `None` -/
+theorem C13_size_hint : C13_size_hint_statement := by
+  intro P lo hi hm k
+  exact judgeHintBig_sound P lo hi (sizeHintModel_judgeBig _ _ lo hi hm) k
+
+/-- the same, spelled out with `C13_judgeHint_sound`: `size_hint` never panics, and if `ys` are the vectors
+yielded so far and `rest` those still to come (together the embeddings, each once), its answer brackets
+`rest.length` -/
+theorem C13_size_hint_total (P : Problem) (ys rest : List (List Nat)) (hp : (ys ++ rest).Perm (subIsoAll P)) :
+    ∃ lo hi, sizeHintModel P.g1.nodes.length = some (lo, hi) ∧
+      lo ≤ rest.length ∧ ∀ b, hi = some b → rest.length ≤ b := by
+  cases hm : sizeHintModel P.g1.nodes.length with
+  | none => have := sizeHintModel_isSome P.g1.nodes.length; rw [hm] at this; cases this
+  | some r =>
+    obtain ⟨lo, hi⟩ := r
+    exact ⟨lo, hi, rfl, C13_judgeHint_sound P ys.length lo hi (C13_size_hint P lo hi hm ys.length) ys rest rfl hp⟩
+
+/-- a one-node pattern and two isolated target nodes: two embeddings (the witness of D34: the code before the
+repair answered `(0, Some(1))` = `(0, Some(n0!))`) -/
 def exHint : Problem :=
   { g0 := { directed := true, nodes := [0], edges := [] },
     g1 := { directed := true, nodes := [0, 1], edges := [] } }
 
-/-- … and it is FALSE (finding D34): the upper bound is `n0!`, but up to `n1!/(n1-n0)!` vectors are yielded -/
-theorem C13_size_hint_statement_false_witness : ¬ C13_size_hint_statement := by
-  intro h
-  have := h exHint (by decide) 0 (some 1) (by decide)
-  revert this
-  decide
+/-- the old witness of D34 on the repaired model: two embeddings exist, the answer is `(0, Some(2))`, which the
+judge accepts — while it still rejects the old answer `(0, Some(1))`, and the old model's answer for this pair
+(`sizeHintModel` of the PATTERN's node count) is that rejected one; and 21 nodes (pattern or target) no longer
+panic: `(0, None)` -/
+theorem C13_D34_witness_repaired :
+    problemOkB exHint = true ∧ (subIsoAll exHint).length = 2 ∧
+    sizeHintModel exHint.g1.nodes.length = some (0, some 2) ∧
+    judgeHint exHint 0 0 (some 2) = true ∧
+    judgeHint exHint 0 0 (some 1) = false ∧ sizeHintModel exHint.g0.nodes.length = some (0, some 1) ∧
+    sizeHintModel 21 = some (0, none) := by decide
 
-/-- the repaired statement, same sizes: when pattern and target have the same number of nodes (the only case in
-which `n0!` IS the number of injections) the model's `size_hint` is right at every point of the iteration -/
-theorem C13_size_hint_partial (P : Problem) (hn : P.g0.nodes.length = P.g1.nodes.length) (lo : Nat) (hi : Option Nat)
-    (hm : sizeHintModel P.g0.nodes.length = some (lo, hi)) (k : Nat) : judgeHint P k lo hi = true := by
-  apply judgeHintBig_sound
-  by_cases h20 : P.g0.nodes.length ≤ 20
-  · rw [sizeHintModel_small h20] at hm
-    simp only [Option.some.injEq, Prod.mk.injEq] at hm
-    obtain ⟨rfl, rfl⟩ := hm
-    simp [judgeHintBig, ← hn, falling_self]
-  · by_cases h21 : P.g0.nodes.length = 21
-    · rw [h21, sizeHintModel_21] at hm; cases hm
-    · rw [sizeHintModel_large (by omega)] at hm
-      simp only [Option.some.injEq, Prod.mk.injEq] at hm
-      obtain ⟨rfl, rfl⟩ := hm
-      simp [judgeHintBig]
-
-/-- the repaired statement, general: `(0, Some(n1 (n1-1) … (n1-n0+1)))` is a correct `size_hint` for every pair,
-at every point of the iteration -/
-theorem C13_size_hint_repaired (P : Problem) (k : Nat) :
+/-- the tighter bound `(0, Some(n1 (n1-1) … (n1-n0+1)))` would be a correct `size_hint` too, for every pair, at
+every point of the iteration (the lemma behind `C13_size_hint`) -/
+theorem C13_size_hint_tighter (P : Problem) (k : Nat) :
     judgeHint P k 0 (some (falling P.g1.nodes.length P.g0.nodes.length)) = true := by
   apply judgeHintBig_sound
   simp [judgeHintBig]
@@ -1283,7 +1293,8 @@ theorem C13_prefix_ended_complete (I : Vf2.Inst) (P : Problem) (hs : Vf2.sideFai
     exact (mo _ ((iterPrefixR_none_iff I fuel k).mp h)).1 rfl
 
 /-! non-vacuity -/
-example : problemOkB exHint = true ∧ subIsoAll exHint = [[0], [1]] ∧ sizeHintModel 1 = some (0, some 1) := by decide
+example : problemOkB exHint = true ∧ subIsoAll exHint = [[0], [1]] ∧ sizeHintModel 2 = some (0, some 2) ∧
+    sizeHintModel 20 = some (0, some 2432902008176640000) ∧ sizeHintModel 22 = some (0, none) := by decide
 example : judgeHint exHint 0 0 (some 2) = true ∧ judgeHint exHint 0 0 (some 1) = false ∧
     judgeHint exHint 1 0 (some 1) = true ∧ judgeHint exHint 0 3 none = false := by decide
 example : judgeHintBig 1 2 0 (some 2) = true ∧ judgeHintBig 1 2 0 (some 1) = false ∧ judgeHintBig 20 20 0 (some (fact 20)) = true := by
@@ -1406,6 +1417,6 @@ example : (Vf2.linkFail { exI with g1 := { exI.g1 with outE := [[], [(3, 0), (0,
 example : iterPrefixR exI Vf2.bigFuel 2 = some (some ([[2, 0, 3]], true)) ∧
     2 ≤ Vf2.fallingFact exI.g1.n exI.g0.n + 2 := by decide
 example : judgePrefix exP [[2, 0, 3]] = true ∧ judgePrefix exP [[2, 0, 1]] = false := by decide
-example : judgeHint exP 0 0 (sizeHintModel 3).get!.2 = true := by decide
+example : sizeHintModel exP.g1.nodes.length = some (0, some 24) ∧ judgeHint exP 0 0 (some 24) = true := by decide
 
 end PetgraphModel.C13T
